@@ -99,7 +99,7 @@ struct Effect {
 struct Chan {
   bool text = false;
   Mode mode = M_NONE;
-  Cell mem[2][15][33];  // [memory][row 0..14][column 1..32]
+  Cell mem[2][15][34];  // [memory][row 0..14][column 1..32; 0 and 33: the margin columns of the page, only .box is used]
   int disp = 0;
   int row = 14, col = 1, depth = 3;
   Pen pen;
@@ -109,22 +109,22 @@ struct Chan {
   // selected (see RefDecoder::orphan); the channel's page is not judged until both memories were erased by a command
   bool unk[2] = {false, false};
   bool tainted() const { return unk[0] || unk[1]; }
-  Cell (*act())[33] { return mem[mode == M_POPON ? disp ^ 1 : disp]; }
-  bool row_empty(Cell (*m)[33], int r) const { for (int c = 1; c <= 32; c++) if (m[r][c].uc) return false; return true; }
+  Cell (*act())[34] { return mem[mode == M_POPON ? disp ^ 1 : disp]; }
+  bool row_empty(Cell (*m)[34], int r) const { for (int c = 1; c <= 32; c++) if (m[r][c].uc) return false; return true; }
   bool mem_empty(int k) const { for (int r = 0; r < 15; r++) for (int c = 1; c <= 32; c++) if (mem[k][r][c].uc) return false; return true; }
   // for the style-switch guard: nothing was written since the last erase (a cell that held a character, or was next to one,
   // may keep a solid blank in the decoder although the model's cell is empty again after BS / DER: LENIENCY legibility space)
-  bool mem_clean(int k) const { for (int r = 0; r < 15; r++) for (int c = 0; c <= 32; c++) if (mem[k][r][c].uc || mem[k][r][c].box) return false; return true; }
-  void erase(int k) { for (int r = 0; r < 15; r++) for (int c = 0; c <= 32; c++) mem[k][r][c] = Cell(); unk[k] = false; }
-  void erase_row(Cell (*m)[33], int r) { for (int c = 0; c <= 32; c++) m[r][c] = Cell(); }
+  bool mem_clean(int k) const { for (int r = 0; r < 15; r++) for (int c = 0; c <= 33; c++) if (mem[k][r][c].uc || mem[k][r][c].box) return false; return true; }
+  void erase(int k) { for (int r = 0; r < 15; r++) for (int c = 0; c <= 33; c++) mem[k][r][c] = Cell(); unk[k] = false; }
+  void erase_row(Cell (*m)[34], int r) { for (int c = 0; c <= 33; c++) m[r][c] = Cell(); }
   void advance() { if (col < 32) col++; else edge = true; }
   void put(unsigned uc) {
     Cell c; c.uc = (uint16_t)uc; c.fg = pen.fg; c.ul = pen.ul; c.it = pen.it; c.fl = pen.fl; c.bg = pen.bg; c.op = pen.op;
     c.adc = pen.adc; c.bdc = pen.bdc;
-    Cell(*m)[33] = act();
+    Cell(*m)[34] = act();
     m[row][col] = c;
-    if (col > 1) m[row][col - 1].box = true;
-    if (col < 32) m[row][col + 1].box = true;
+    m[row][col - 1].box = true;   // col 1: the left margin column
+    m[row][col + 1].box = true;   // col 32: the right margin column
     advance();
   }
   void cr_pen() {  // LENIENCY: attributes of a row begun without PAC (after CR): 15.119(h)(1) says white, the
@@ -244,7 +244,7 @@ struct RefDecoder {
     } else if (c1 == 1 && c2 >= 0x30 && c2 <= 0x3F) {  // special characters
       e.what = "spc";
       if (c2 == 0x39) {  // transparent space: nothing displayed in this cell, cursor advances
-        Cell(*m)[33] = c.act();
+        Cell(*m)[34] = c.act();
         m[c.row][c.col] = Cell();
         c.advance();
       } else {
@@ -253,7 +253,7 @@ struct RefDecoder {
     } else if (c1 == 7 && c2 >= 0x21 && c2 <= 0x23) {  // tab offsets: move the cursor only
       e.what = "tab";
       int n = c2 & 3;
-      Cell(*m)[33] = c.act();
+      Cell(*m)[34] = c.act();
       if (c.col + n > 32) { c.col = 32; c.edge = true; } else c.col += n;
       if (c.col > 1 && m[c.row][c.col - 1].uc) c.pen.adc = true;  // LENIENCY: EIA-608 Annex C.7 (attributes of the left neighbour) vs pen
     } else if (c1 == 0 && c2 >= 0x20 && c2 <= 0x2F) {  // background attribute, EIA-608 6.2: spacing, replaces the preceding space
@@ -270,7 +270,7 @@ struct RefDecoder {
     // everything else (extended characters, FA/FAU, reserved) is not generated
   }
   void bg_space(Chan& c) {  // the attribute takes the place of the space the encoder sent before it (GUARD bga: col > 1, previous cell is a space)
-    Cell(*m)[33] = c.act();
+    Cell(*m)[34] = c.act();
     int col = c.col > 1 && !c.edge ? c.col - 1 : c.col;
     Cell s; s.uc = 0x20; s.fg = c.pen.fg; s.ul = c.pen.ul; s.it = c.pen.it; s.fl = c.pen.fl; s.bg = c.pen.bg; s.op = c.pen.op; s.adc = c.pen.adc;
     m[c.row][col] = s;
@@ -278,16 +278,16 @@ struct RefDecoder {
 
   void move_window(Chan& c, int newbase) {  // 15.119(f)(1)(ii): "the entire window will move intact (and without erasing) to the new base row"
     if (newbase == c.row) return;
-    Cell(*m)[33] = c.mem[c.disp];
-    Cell tmp[4][33];
+    Cell(*m)[34] = c.mem[c.disp];
+    Cell tmp[4][34];
     int n = c.depth;
     for (int i = 0; i < n; i++) {  // i-th row above the base
       int r = c.row - i;
-      for (int k = 0; k <= 32; k++) { tmp[i][k] = r >= 0 ? m[r][k] : Cell(); if (r >= 0) m[r][k] = Cell(); }
+      for (int k = 0; k <= 33; k++) { tmp[i][k] = r >= 0 ? m[r][k] : Cell(); if (r >= 0) m[r][k] = Cell(); }
     }
     for (int i = 0; i < n; i++) {
       int r = newbase - i;
-      if (r >= 0) for (int k = 0; k <= 32; k++) m[r][k] = tmp[i][k];
+      if (r >= 0) for (int k = 0; k <= 33; k++) m[r][k] = tmp[i][k];
     }
     c.row = newbase;
     cnt("ref_window_moved");
@@ -338,7 +338,7 @@ struct RefDecoder {
         if (c.mode == M_ROLLUP) {
           // (f)(1)(iv)?: depth changes at once, base row stays; a smaller window loses its top rows
           if (n < c.depth) {
-            Cell(*m)[33] = c.mem[c.disp];
+            Cell(*m)[34] = c.mem[c.disp];
             for (int r = c.row - c.depth + 1; r <= c.row - n; r++) if (r >= 0) { if (!c.row_empty(m, r)) e.sync = true; c.erase_row(m, r); }
           }
           c.depth = n;
@@ -385,7 +385,7 @@ struct RefDecoder {
     Chan& c = ch[addressed];
     e.chan = addressed;
     if (c.mode == M_NONE) return;
-    Cell(*m)[33] = c.act();
+    Cell(*m)[34] = c.act();
     switch (code) {
       case 1:  // BS (f)(1)(vi): cursor one column left, erasing what is there; ignored in column 1
         e.what = "bs";
@@ -408,13 +408,13 @@ struct RefDecoder {
         e.what = "cr";
         if (c.mode == M_ROLLUP) {  // (f)(1)(iii): roll the window, cursor to column 1 of the base row
           int top = c.row - c.depth + 1; if (top < 0) top = 0;
-          for (int r = top; r < c.row; r++) for (int k = 0; k <= 32; k++) m[r][k] = m[r + 1][k];
+          for (int r = top; r < c.row; r++) for (int k = 0; k <= 33; k++) m[r][k] = m[r + 1][k];
           c.erase_row(m, c.row);
           c.col = 1; c.edge = false; c.cr_pen();
           e.sync = true;
         } else if (c.mode == M_TEXT) {  // EIA-608 7.4: next row; on the last row the text scrolls up
           if (c.row < 14) c.row++;
-          else { for (int r = 0; r < 14; r++) for (int k = 0; k <= 32; k++) m[r][k] = m[r + 1][k]; c.erase_row(m, 14); cnt("ref_text_scrolled"); }
+          else { for (int r = 0; r < 14; r++) for (int k = 0; k <= 33; k++) m[r][k] = m[r + 1][k]; c.erase_row(m, 14); cnt("ref_text_scrolled"); }
           c.col = 1; c.edge = false; c.cr_pen();
           e.sync = true;
         }
@@ -685,7 +685,7 @@ struct C08 : World {
   static bool compare(int chn, const vbi_page& pg, const Effect& e) {
     St& s = *g;
     Chan& c = s.ref.ch[chn];
-    Cell(*m)[33] = c.mem[c.disp];
+    Cell(*m)[34] = c.mem[c.disp];
     if (c.tainted()) {  // LENIENCY orphan-same-field (RefDecoder::orphan): page and event clause not judged until the memories were erased
       s.ctx->count("lenient_orphan_same_field");
       s.have_proj[chn] = false;
@@ -697,6 +697,24 @@ struct C08 : World {
       return false;
     }
     bool nonblank = false;
+    // The margin columns 0 and 33 of the page are the library's room for the legibility space of 15.119(d) ("a solid space
+    // equal to one character width before the first and after the last character of a row"): they hold no character, and on
+    // a caption channel a margin cell may be solid only next to (LENIENCY box: or formerly next to) a character in column 1
+    // resp. 32 - a solid margin cell on a row whose neighbouring column was never written is visible content the display
+    // memory does not have.
+    for (int r = 0; r < 15 && !c.text; r++) {
+      for (int side = 0; side < 2; side++) {
+        int k = side ? 33 : 0, nb = side ? 32 : 1;
+        const vbi_char& gc = pg.text[r * 34 + k];
+        const char* why = nullptr;
+        if (gc.unicode != 0x20) why = "character in a margin column";
+        else if (gc.opacity != VBI_TRANSPARENT_SPACE && !m[r][k].box && !m[r][nb].uc && !m[r][nb].box) why = "solid margin cell on a row whose neighbouring column holds nothing";
+        if (why) {
+          s.ctx->fail(cls, "CC page %d (%s) after %s: row %d margin column %d: %s (fetched U+%04X op%d)", chn + 1, mode_name[c.mode], e.what, r + 1, k, why, gc.unicode, gc.opacity);
+          return false;
+        }
+      }
+    }
     for (int r = 0; r < 15; r++) {
       for (int k = 1; k <= 32; k++) {
         const Cell& mc = m[r][k];
